@@ -24,6 +24,11 @@ type Scenario struct {
 	Extract string
 	Ignore  []string
 	Log     string // "full": batch/proc/ign/recv/final events; "sum": one summary record
+	// Gunzip is the -z flag of OpenFilesToChan (file mode): gzip sources are decoded, anything else is
+	// read as a plain file from its first byte.
+	Gunzip bool
+	// Family is a free-form tag copied into the reset record (corpus family, for coverage accounting).
+	Family string
 	// ConsumerDelay is slept by the consumer before every receive (lets readChan fill up).
 	ConsumerDelay time.Duration
 	// Deadline after which the run is declared hung (default 60 s).
@@ -75,7 +80,7 @@ func WriteHeader(log *EventLog, s *Scenario, mode string) (*Dict, error) {
 	}
 	log.Write(M{"event": "reset", "t": s.ID, "mode": mode, "batch": s.Batch, "workers": s.Workers,
 		"readers": s.Readers, "buf": s.Buffer, "tf": tf, "nign": len(s.Ignore), "log": logKind,
-		"nfiles": len(s.Sources)})
+		"nfiles": len(s.Sources), "gunzip": b2i(s.Gunzip), "family": s.Family})
 	d := NewDict()
 	files := make([][]int, len(s.Sources))
 	for f := range s.Sources {
@@ -100,7 +105,7 @@ func WriteHeader(log *EventLog, s *Scenario, mode string) (*Dict, error) {
 		}
 	}
 	for f := range files {
-		log.Write(M{"event": "file", "f": f + 1, "lines": files[f]})
+		log.Write(M{"event": "file", "f": f + 1, "lines": files[f], "kind": s.Sources[f].Kind(), "size": len(s.Sources[f].Raw)})
 	}
 	return d, nil
 }
@@ -169,7 +174,7 @@ func Run(s *Scenario, log *EventLog) (*Outcome, error) {
 			}
 		}
 		close(names)
-		batcher = batchers.OpenFilesToChan(names, false, s.Readers, s.Batch, s.Buffer)
+		batcher = batchers.OpenFilesToChan(names, s.Gunzip, s.Readers, s.Batch, s.Buffer)
 	case "reader":
 		sr = NewScriptedReader(&s.Sources[0])
 		batcher = batchers.OpenReaderToChan(s.Sources[0].Name, sr, s.Batch, s.Buffer)
